@@ -28,7 +28,8 @@ def interrupted_write(ctx, add):
     uj = core.use_repo()
     clock = itertools.count(1)
     now = lambda: dt.datetime(2020, 1, 1) + dt.timedelta(seconds=next(clock))
-    for workers in (1, 3):
+    # (a shutdown that gives up on its workers after some grace period shows only with writes longer than that period)
+    for workers, duration in ((1, 0.6), (3, 0.6), (2, 1.7)) + (() if ctx.quick else ((2, 3.5), (1, 6.0))):
         writing = threading.Event()
 
         class Mem(uj.ValueStore):
@@ -42,7 +43,7 @@ def interrupted_write(ctx, add):
                 self.in_flight = True
                 if self.slow and not writing.is_set():
                     writing.set()
-                    time.sleep(0.6)
+                    time.sleep(duration)
                 self.v, self.t = v, now()
                 self.in_flight = False
 
@@ -72,11 +73,11 @@ def interrupted_write(ctx, add):
             first = "interrupted-late"
         still = a_st.in_flight or b_st.in_flight
         src.v, src.t = 50, now()              # the source is updated right after the interrupted run
-        time.sleep(1.0)
+        time.sleep(duration + 0.4)
         th.join(5)
         got = uj.run(plan, registry=reg, output=b, max_workers=1, progress=None)
-        ctx.case(("c03-interrupted-write", workers))
+        ctx.case(("c03-interrupted-write", workers, duration))
         ctx.count("interrupted_write_first_run", first)
         if still or got != 101 or a_st.v != 100 or b_st.v != 101:
             add("C03", "interrupted-write", "Ctrl-C during a store write (%s): a write was still in flight when run raised: %s; after a source update the next run "
-                "returned %r and left %r / %r, from scratch: 101, 100 / 101" % (first, still, got, a_st.v, b_st.v), {"max_workers": workers, "first_run": first})
+                "returned %r and left %r / %r, from scratch: 101, 100 / 101" % (first, still, got, a_st.v, b_st.v), {"max_workers": workers, "first_run": first, "write_lasts_seconds": duration})
